@@ -24,7 +24,7 @@ pub fn inputs(seed: u64, tier: Tier) -> Vec<In> {
         if it.name.starts_with("long-symbols-300+marker") && tier == Tier::Quick {
             continue;
         }
-        for k in [corpus::OptKind::Header, corpus::OptKind::ProvidedSome] {
+        for k in corpus::ALL_OPTS {
             if let Some(b) = it.build(k) {
                 if b.bytes.len() <= 330 {
                     valid.push(In { label: format!("lzma {} [{:?}]", it.name, k), fmt: Fmt::Lzma, opts: b.opts, bytes: b.bytes });
